@@ -475,6 +475,7 @@ func c15Worklist(thorough bool) []c15Work {
 				spec := shape
 				spec.Events = cfg
 				spec.Name = fmt.Sprintf("%s/e%d", shape.Name, ci)
+				spec.Lenient = (ci+len(out))%2 == 1 // every other unit runs against a node that answers inverted log ranges with nothing
 				if _, err := buildTree(spec, kind); err != nil {
 					continue // placement would register a key twice on one branch
 				}
